@@ -60,7 +60,11 @@ func drawDoc(w *world, delims [3]string, maxRepeat int) (string, *doc) {
 	case d.unitLen > 0 && simrt.Choose(2) == 1:
 		text = d.expand(1 + simrt.Choose(maxRepeat))
 	case d.nest != nil && simrt.Choose(2) == 1:
-		text = d.nest(1 + simrt.Choose(12))
+		if simrt.Choose(8) == 1 {
+			text = d.nest(60 + simrt.Choose(340)) // moderately deep: up to a few hundred levels
+		} else {
+			text = d.nest(1 + simrt.Choose(12))
+		}
 	}
 	return instantiate(text, delims), d
 }
@@ -274,12 +278,36 @@ func entryParser(rc *RunCtx) *Violation {
 		}
 	}
 
-	// clause 5: Trace changes nothing but the trace output
+	// clause 5: Trace changes nothing but the trace output (on a drawn entry point)
 	if simrt.Choose(2) == 1 {
 		sw := newSimWriter()
-		traced := call(func() (interface{}, error) { return p.ParseString(name, d, participle.Trace(sw)) })
+		entry := simrt.Choose(4)
+		var r6 *SimReader
+		traced := call(func() (interface{}, error) {
+			switch entry {
+			case 1:
+				return p.ParseBytes(name, []byte(d), participle.Trace(sw))
+			case 2:
+				r6 = newSimReader(rc, d, ends, readerOpts{})
+				return p.Parse(name, r6, participle.Trace(sw))
+			case 3:
+				lx, err := p.Lexer().Lex(name, strings.NewReader(d))
+				if err != nil {
+					return nil, err
+				}
+				pl, err := lexer.Upgrade(lx, p.Elided()...)
+				if err != nil {
+					return nil, err
+				}
+				return p.ParseFromLexer(pl, participle.Trace(sw))
+			}
+			return p.ParseString(name, d, participle.Trace(sw))
+		})
+		if r6 != nil {
+			r6.account(rc)
+		}
 		if !sameResult(pivot, traced) {
-			return viol("Trace-changes-result", fmt.Sprintf("with Trace (writer mode %d, fails after %d bytes) = %s but without = %s", sw.mode, sw.k, clip(traced.desc(), 500), clip(pivot.desc(), 500)))
+			return viol("Trace-changes-result", fmt.Sprintf("with Trace (entry point %d, writer mode %d, fails after %d bytes) = %s but without = %s", entry, sw.mode, sw.k, clip(traced.desc(), 500), clip(pivot.desc(), 500)))
 		}
 		switch {
 		case sw.failed:
@@ -363,6 +391,12 @@ func entryParser(rc *RunCtx) *Violation {
 
 func entryTrailing(rc *RunCtx, w *world, p PH, x string, viol func(string, string) *Violation) *Violation {
 	full := x + w.junk
+	opts := []participle.ParseOption{participle.AllowTrailing(true)}
+	traced := simrt.Choose(2) == 1
+	if traced {
+		opts = append(opts, participle.Trace(newSimWriter()))
+		rc.probe("AllowTrailing together with Trace")
+	}
 	var peek lexer.Token
 	res := call(func() (interface{}, error) {
 		lx, err := p.Lexer().Lex("file.txt", strings.NewReader(full))
@@ -373,7 +407,7 @@ func entryTrailing(rc *RunCtx, w *world, p PH, x string, viol func(string, strin
 		if err != nil {
 			return nil, err
 		}
-		ast, err := p.ParseFromLexer(pl, participle.AllowTrailing(true))
+		ast, err := p.ParseFromLexer(pl, opts...)
 		peek = *pl.Peek()
 		return ast, err
 	})
@@ -386,7 +420,7 @@ func entryTrailing(rc *RunCtx, w *world, p PH, x string, viol func(string, strin
 	wantOff := len(x) + strings.Index(w.junk, strings.TrimSpace(w.junk))
 	first := strings.Fields(w.junk)[0]
 	if peek.EOF() || peek.Pos.Offset != wantOff || !strings.HasPrefix(peek.Value, first[:1]) {
-		return viol("AllowTrailing-cursor", fmt.Sprintf("after ParseFromLexer(AllowTrailing) over X+%q the caller's lexer peeks %s, want the first junk token at offset %d", w.junk, peek.GoString(), wantOff))
+		return viol("AllowTrailing-cursor", fmt.Sprintf("after ParseFromLexer(AllowTrailing, trace=%v) over X+%q the caller's lexer peeks %s, want the first junk token at offset %d", traced, w.junk, peek.GoString(), wantOff))
 	}
 	return nil
 }
@@ -399,6 +433,10 @@ func entryResume(rc *RunCtx, w *world, o buildOpts, dc *doc, viol func(string, s
 		return viol("build-panic", pn)
 	}
 	text := strings.Join(dc.stmts, "\n")
+	opts := []participle.ParseOption{participle.AllowTrailing(true)}
+	if simrt.Choose(2) == 1 {
+		opts = append(opts, participle.Trace(newSimWriter()))
+	}
 	var got []string
 	res := call(func() (interface{}, error) {
 		lx, err := sp.Lexer().Lex("file.txt", strings.NewReader(text))
@@ -410,7 +448,7 @@ func entryResume(rc *RunCtx, w *world, o buildOpts, dc *doc, viol func(string, s
 			return nil, err
 		}
 		for i := 0; i < len(dc.stmts); i++ {
-			ast, err := sp.ParseFromLexer(pl, participle.AllowTrailing(true))
+			ast, err := sp.ParseFromLexer(pl, opts...)
 			if err != nil {
 				return nil, fmt.Errorf("statement %d: %w", i, err)
 			}
